@@ -5,7 +5,7 @@ use specs::prelude::*;
 use specs::hibitset::BitSetLike;
 use specs::shrev::ReaderId;
 use specs::storage::{AccessMut, ComponentEvent, GenericWriteStorage, StorageEntry, Tracked};
-use specs::world::EntitiesRes;
+use specs::world::{EntitiesRes, LazyBuilder};
 use std::collections::HashMap;
 use std::panic::{catch_unwind, AssertUnwindSafe};
 
@@ -20,31 +20,51 @@ fn enc_ents(tag: i64, l: &[Entity]) -> Out {
     o
 }
 
-pub struct Exec {
-    pub world: World,
+/// everything the executor needs besides the world itself
+pub struct St {
     pub hs: Vec<Entity>,
     readers: HashMap<i64, Vec<ReaderId<ComponentEvent>>>,
+    /// what happened inside lazy closures during the current maintain, in order
+    log: Vec<LogItem>,
 }
+
+enum LogItem {
+    /// effects accumulated since the previous boundary (they belong to the preceding entry)
+    Eff(u64, Vec<u64>),
+    /// a nested operation run by a lazy closure: (code, payload, output)
+    Op(i64, Vec<i64>, Out),
+}
+
+pub struct Exec {
+    pub world: World,
+    pub st: St,
+}
+
+/// pointer to the executor state handed to lazy closures (they run synchronously inside
+/// `World::maintain` on this thread, while nothing else touches the state)
+struct StPtr(*mut St);
+unsafe impl Send for StPtr {}
+unsafe impl Sync for StPtr {}
 
 // ---------------------------------------------------------------- generic storage ops
 
-fn reg<T: Tokish>(ex: &mut Exec)
+fn reg<T: Tokish>(world: &mut World)
 where
     T::Storage: Default,
 {
-    ex.world.register::<T>();
+    world.register::<T>();
 }
-fn reg_with<T: Tokish>(ex: &mut Exec)
+fn reg_with<T: Tokish>(world: &mut World)
 where
     T::Storage: Default,
 {
-    ex.world.register_with_storage::<_, T>(Default::default);
+    world.register_with_storage::<_, T>(Default::default);
 }
-fn reg_setup_read<T: Tokish>(ex: &mut Exec) {
-    <ReadStorage<T> as SystemData>::setup(&mut ex.world);
+fn reg_setup_read<T: Tokish>(world: &mut World) {
+    <ReadStorage<T> as SystemData>::setup(world);
 }
-fn reg_setup_write<T: Tokish>(ex: &mut Exec) {
-    <WriteStorage<T> as SystemData>::setup(&mut ex.world);
+fn reg_setup_write<T: Tokish>(world: &mut World) {
+    <WriteStorage<T> as SystemData>::setup(world);
 }
 
 fn opt_tok(tag: i64, o: Option<(u64, i64)>) -> Out {
@@ -61,19 +81,25 @@ fn ret<T: Tokish>(t: T) -> (u64, i64) {
     r
 }
 
-fn with_comp<T: Tokish>(ex: &mut Exec, e: Entity, uid: u64, val: i64, lazy: bool) {
-    if lazy {
-        let lz = ex.world.read_resource::<LazyUpdate>();
-        lz.insert(e, T::mk(uid, val));
+/// a storage put into the world as a plain resource (not registered), then made known by setup
+fn reg_raw_then_setup<T: Tokish>(world: &mut World, write: bool)
+where
+    T::Storage: Default,
+{
+    use specs::storage::MaskedStorage;
+    if !world.has_value::<MaskedStorage<T>>() {
+        world.insert(MaskedStorage::<T>::new(Default::default()));
+    }
+    if write {
+        <WriteStorage<T> as SystemData>::setup(world);
     } else {
-        let mut st = ex.world.write_storage::<T>();
-        st.insert(e, T::mk(uid, val)).unwrap();
+        <ReadStorage<T> as SystemData>::setup(world);
     }
 }
 
-fn st_op<T: Tokish>(ex: &mut Exec, code: i64, p: &[i64]) -> Out {
+fn st_op<T: Tokish>(world: &mut World, xs: &mut St, code: i64, p: &[i64]) -> Out {
     let e = if matches!(code, 30 | 31 | 32 | 33 | 34 | 41 | 42) {
-        match ex.hs.get(p[1].max(0) as usize).copied() {
+        match xs.hs.get(p[1].max(0) as usize).copied() {
             Some(e) if p[1] >= 0 => Some(e),
             _ => return vec![8],
         }
@@ -82,7 +108,7 @@ fn st_op<T: Tokish>(ex: &mut Exec, code: i64, p: &[i64]) -> Out {
     };
     match code {
         30 => {
-            let mut st = ex.world.write_storage::<T>();
+            let mut st = world.write_storage::<T>();
             match st.insert(e.unwrap(), T::mk(p[2] as u64, p[3])) {
                 Ok(None) => vec![11, 0],
                 Ok(Some(old)) => {
@@ -94,11 +120,11 @@ fn st_op<T: Tokish>(ex: &mut Exec, code: i64, p: &[i64]) -> Out {
             }
         }
         31 => {
-            let st = ex.world.read_storage::<T>();
+            let st = world.read_storage::<T>();
             opt_tok(12, st.get(e.unwrap()).map(|t| (t.uid(), t.val())))
         }
         32 => {
-            let mut st = ex.world.write_storage::<T>();
+            let mut st = world.write_storage::<T>();
             let touch = p[2] != 0;
             let write = p[3] != 0;
             let r = match st.get_mut(e.unwrap()) {
@@ -117,28 +143,28 @@ fn st_op<T: Tokish>(ex: &mut Exec, code: i64, p: &[i64]) -> Out {
             opt_tok(12, r)
         }
         33 => {
-            let mut st = ex.world.write_storage::<T>();
+            let mut st = world.write_storage::<T>();
             opt_tok(12, st.remove(e.unwrap()).map(ret))
         }
         34 => {
-            let st = ex.world.read_storage::<T>();
+            let st = world.read_storage::<T>();
             vec![4, st.contains(e.unwrap()) as i64]
         }
-        35 => vec![13, ex.world.read_storage::<T>().count() as i64],
-        36 => vec![4, ex.world.read_storage::<T>().is_empty() as i64],
+        35 => vec![13, world.read_storage::<T>().count() as i64],
+        36 => vec![4, world.read_storage::<T>().is_empty() as i64],
         37 => {
-            let st = ex.world.read_storage::<T>();
+            let st = world.read_storage::<T>();
             let ids: Vec<u32> = st.mask().iter().collect();
             let mut o = vec![14, ids.len() as i64];
             o.extend(ids.iter().map(|&i| i as i64));
             o
         }
         39 => {
-            ex.world.write_storage::<T>().clear();
+            world.write_storage::<T>().clear();
             vec![7]
         }
         40 => {
-            let mut st = ex.world.write_storage::<T>();
+            let mut st = world.write_storage::<T>();
             // optionally the iterator is dropped after p[1] items
             let l: Vec<(u64, i64)> = if p.len() >= 2 {
                 st.drain().join().take(p[1].max(0) as usize).map(ret).collect()
@@ -153,7 +179,7 @@ fn st_op<T: Tokish>(ex: &mut Exec, code: i64, p: &[i64]) -> Out {
             o
         }
         41 => {
-            let mut st = ex.world.write_storage::<T>();
+            let mut st = world.write_storage::<T>();
             let sub = p[2];
             let (u, v) = (p[3] as u64, p[4]);
             // the value offered to the entry is constructed before the call, as user code would
@@ -202,7 +228,7 @@ fn st_op<T: Tokish>(ex: &mut Exec, code: i64, p: &[i64]) -> Out {
             }
         }
         42 => {
-            let mut st = ex.world.write_storage::<T>();
+            let mut st = world.write_storage::<T>();
             let e = e.unwrap();
             // both textual copies of get_mut_or_default
             let r = if p[1] % 2 == 0 {
@@ -220,10 +246,10 @@ fn st_op<T: Tokish>(ex: &mut Exec, code: i64, p: &[i64]) -> Out {
     }
 }
 
-fn slice_op(ex: &mut Exec, sid: i64) -> Out {
+fn slice_op(world: &mut World, sid: i64) -> Out {
     match sid {
         0 => {
-            let st = ex.world.read_storage::<CV>();
+            let st = world.read_storage::<CV>();
             let s = st.as_slice();
             let ids: Vec<u32> = st.mask().iter().collect();
             let mut o = vec![17, 1, s.len() as i64, ids.len() as i64];
@@ -236,7 +262,7 @@ fn slice_op(ex: &mut Exec, sid: i64) -> Out {
             o
         }
         1 => {
-            let st = ex.world.read_storage::<CD>();
+            let st = world.read_storage::<CD>();
             let s = st.as_slice();
             let mut o = vec![17, 2, s.len() as i64];
             for t in s {
@@ -246,7 +272,7 @@ fn slice_op(ex: &mut Exec, sid: i64) -> Out {
             o
         }
         2 => {
-            let st = ex.world.read_storage::<CT>();
+            let st = world.read_storage::<CT>();
             let s = st.as_slice();
             let mut o = vec![17, 2, s.len() as i64];
             for t in s {
@@ -257,30 +283,30 @@ fn slice_op(ex: &mut Exec, sid: i64) -> Out {
         }
         _ => {
             // the wrappers have no slice access; the storage must still be registered
-            fn touch<T: Tokish>(ex: &mut Exec) {
-                let _ = ex.world.read_storage::<T>();
+            fn touch<T: Tokish>(world: &mut World) {
+                let _ = world.read_storage::<T>();
             }
-            by_sid!(sid, touch, ex);
+            by_sid!(sid, touch, world);
             vec![17, 0]
         }
     }
 }
 
-fn tracked_op<T: Tokish>(ex: &mut Exec, sid: i64, code: i64, p: &[i64]) -> Out
+fn tracked_op<T: Tokish>(world: &mut World, xs: &mut St, sid: i64, code: i64, p: &[i64]) -> Out
 where
     T::Storage: Tracked,
 {
     match code {
         70 => {
-            let r = ex.world.write_storage::<T>().register_reader();
-            let v = ex.readers.entry(sid).or_default();
+            let r = world.write_storage::<T>().register_reader();
+            let v = xs.readers.entry(sid).or_default();
             v.push(r);
             vec![19, (v.len() - 1) as i64]
         }
         71 => {
-            let st = ex.world.read_storage::<T>();
+            let st = world.read_storage::<T>();
             let k = p[1];
-            match ex.readers.get_mut(&sid).and_then(|v| if k >= 0 { v.get_mut(k as usize) } else { None }) {
+            match xs.readers.get_mut(&sid).and_then(|v| if k >= 0 { v.get_mut(k as usize) } else { None }) {
                 Some(r) => {
                     let evs: Vec<ComponentEvent> = st.channel().read(r).copied().collect();
                     let mut o = vec![18, evs.len() as i64];
@@ -297,7 +323,7 @@ where
             }
         }
         72 => {
-            ex.world.write_storage::<T>().set_event_emission(p[1] != 0);
+            world.write_storage::<T>().set_event_emission(p[1] != 0);
             vec![7]
         }
         _ => vec![8],
@@ -318,34 +344,62 @@ macro_rules! by_tracked_sid {
 
 impl Exec {
     pub fn new() -> Self {
-        Exec { world: World::new(), hs: Vec::new(), readers: HashMap::new() }
-    }
-
-    fn h(&self, k: i64) -> Option<Entity> {
-        if k < 0 {
-            return None;
-        }
-        self.hs.get(k as usize).copied()
-    }
-
-    /// (sid, uid, val) triples attached by a builder
-    fn comps(p: &[i64]) -> Vec<(i64, u64, i64)> {
-        p.chunks(3).filter(|c| c.len() == 3).map(|c| (c[0], c[1] as u64, c[2])).collect()
-    }
-
-    fn attach(&mut self, e: Entity, cs: &[(i64, u64, i64)], lazy: bool) {
-        for &(sid, u, v) in cs {
-            by_sid!(sid, with_comp, self, e, u, v, lazy);
-        }
+        Exec { world: World::new(), st: St { hs: Vec::new(), readers: HashMap::new(), log: Vec::new() } }
     }
 
     pub fn step(&mut self, code: i64, p: &[i64]) -> Out {
+        exec(&mut self.world, &mut self.st, code, p)
+    }
+}
+
+fn hget(xs: &St, k: i64) -> Option<Entity> {
+    if k < 0 {
+        return None;
+    }
+    xs.hs.get(k as usize).copied()
+}
+
+/// (sid, uid, val) triples attached by a builder
+fn comps(p: &[i64]) -> Vec<(i64, u64, i64)> {
+    p.chunks(3).filter(|c| c.len() == 3).map(|c| (c[0], c[1] as u64, c[2])).collect()
+}
+
+/// split an encoded op list into (code, payload) pairs
+fn parse_ops(ints: &[i64]) -> Vec<(i64, Vec<i64>)> {
+    let mut v = Vec::new();
+    let mut i = 0;
+    while i + 1 < ints.len() {
+        let code = ints[i];
+        let n = ints[i + 1].max(0) as usize;
+        if i + 2 + n > ints.len() {
+            break;
+        }
+        v.push((code, ints[i + 2..i + 2 + n].to_vec()));
+        i += 2 + n;
+    }
+    v
+}
+
+/// the body of a lazy closure queued by op 63: run the nested operations on the world it is given
+fn run_prog(world: &mut World, sp: &StPtr, prog: &[(i64, Vec<i64>)]) {
+    // SAFETY: see StPtr
+    let xs: &mut St = unsafe { &mut *sp.0 };
+    for (code, p) in prog {
+        let (m, d) = take_effects();
+        xs.log.push(LogItem::Eff(m, d));
+        let out = if *code == 14 || *code == 99 { vec![8] } else { exec(world, xs, *code, p) };
+        xs.log.push(LogItem::Op(*code, p.clone(), out));
+    }
+}
+
+pub fn exec(world: &mut World, xs: &mut St, code: i64, p: &[i64]) -> Out {
+    {
         match code {
             1 => {
                 // world.create_entity().with(..).build(): `with` fetches a WriteStorage and inserts
-                let cs = Self::comps(p);
+                let cs = comps(p);
                 let e = {
-                    let mut b = self.world.create_entity();
+                    let mut b = world.create_entity();
                     for &(sid, u, v) in &cs {
                         fn w<'a, T: Tokish>(b: EntityBuilder<'a>, u: u64, v: i64) -> EntityBuilder<'a> {
                             b.with(T::mk(u, v))
@@ -354,19 +408,18 @@ impl Exec {
                     }
                     b.build()
                 };
-                self.hs.push(e);
-                enc_ents(1, &[e])
+                xs.hs.push(e);
+                return enc_ents(1, &[e]);
             }
-            _ => self.step2(code, p),
+            _ => {}
         }
     }
-
-    fn step2(&mut self, code: i64, p: &[i64]) -> Out {
+    {
         match (code, p.len()) {
             (2, _) => {
-                let cs = Self::comps(p);
+                let cs = comps(p);
                 let e = {
-                    let mut b = self.world.create_entity();
+                    let mut b = world.create_entity();
                     let e = b.entity;
                     for &(sid, u, v) in &cs {
                         fn w<'a, T: Tokish>(b: EntityBuilder<'a>, u: u64, v: i64) -> EntityBuilder<'a> {
@@ -377,31 +430,31 @@ impl Exec {
                     drop(b);
                     e
                 };
-                self.hs.push(e);
+                xs.hs.push(e);
                 enc_ents(1, &[e])
             }
             (3, 1) => {
                 let n = p[0].max(0) as usize;
-                let l: Vec<Entity> = self.world.create_iter().take(n).collect();
-                self.hs.extend(l.iter().copied());
+                let l: Vec<Entity> = world.create_iter().take(n).collect();
+                xs.hs.extend(l.iter().copied());
                 enc_ents(1, &l)
             }
             (4, 0) => {
-                let e = self.world.entities().create();
-                self.hs.push(e);
+                let e = world.entities().create();
+                xs.hs.push(e);
                 enc_ents(1, &[e])
             }
             (5, 1) => {
                 let n = p[0].max(0) as usize;
-                let l: Vec<Entity> = self.world.entities().create_iter().take(n).collect();
-                self.hs.extend(l.iter().copied());
+                let l: Vec<Entity> = world.entities().create_iter().take(n).collect();
+                xs.hs.extend(l.iter().copied());
                 enc_ents(1, &l)
             }
             (6, n) if n >= 1 => {
                 let built = p[0] != 0;
-                let cs = Self::comps(&p[1..]);
+                let cs = comps(&p[1..]);
                 let e = {
-                    let ents = self.world.entities();
+                    let ents = world.entities();
                     let b = ents.build_entity();
                     let e = b.entity;
                     // EntityResBuilder::with(c, &mut storage) is storage.insert(entity, c).unwrap()
@@ -410,7 +463,7 @@ impl Exec {
                             let mut st = world.write_storage::<T>();
                             st.insert(e, T::mk(u, v)).unwrap();
                         }
-                        by_sid!(sid, w, &self.world, e, u, v);
+                        by_sid!(sid, w, &*world, e, u, v);
                     }
                     if built {
                         b.build()
@@ -419,89 +472,151 @@ impl Exec {
                         e
                     }
                 };
-                self.hs.push(e);
+                xs.hs.push(e);
                 enc_ents(1, &[e])
             }
             (7, _) => {
-                let cs = Self::comps(p);
+                // lazy.create_entity(&entities).with(..).build(): `with` queues a lazy insertion
+                let cs = comps(p);
                 let e = {
-                    let lazy = self.world.read_resource::<LazyUpdate>();
-                    let ents = self.world.entities();
-                    lazy.create_entity(&ents).build()
+                    let lazy = world.read_resource::<LazyUpdate>();
+                    let ents = world.entities();
+                    let mut b = lazy.create_entity(&ents);
+                    for &(sid, u, v) in &cs {
+                        fn w<'a, T: Tokish>(b: LazyBuilder<'a>, u: u64, v: i64) -> LazyBuilder<'a> {
+                            b.with(T::mk(u, v))
+                        }
+                        b = by_sid!(sid, w, b, u, v);
+                    }
+                    b.build()
                 };
-                self.attach(e, &cs, true);
-                self.hs.push(e);
+                xs.hs.push(e);
                 enc_ents(1, &[e])
             }
-            (10, 1) => match self.h(p[0]) {
-                Some(e) => match self.world.delete_entity(e) {
+            (10, 1) => match hget(xs, p[0]) {
+                Some(e) => match world.delete_entity(e) {
                     Ok(()) => vec![2, 0],
                     Err(w) => vec![2, 1, 0, w.actual_gen.id() as i64],
                 },
                 None => vec![8],
             },
             (11, _) => {
-                let es: Option<Vec<Entity>> = p.iter().map(|&k| self.h(k)).collect();
+                let es: Option<Vec<Entity>> = p.iter().map(|&k| hget(xs, k)).collect();
                 match es {
-                    Some(es) => match self.world.delete_entities(&es) {
+                    Some(es) => match world.delete_entities(&es) {
                         Ok(()) => vec![2, 0],
                         Err((w, pos)) => vec![2, 1, pos as i64, w.actual_gen.id() as i64],
                     },
                     None => vec![8],
                 }
             }
-            (12, 1) => match self.h(p[0]) {
-                Some(e) => match self.world.entities().delete(e) {
+            (12, 1) => match hget(xs, p[0]) {
+                Some(e) => match world.entities().delete(e) {
                     Ok(()) => vec![3, 0],
                     Err(w) => vec![3, 1, w.actual_gen.id() as i64],
                 },
                 None => vec![8],
             },
             (13, 0) => {
-                let es: Vec<Entity> = (&self.world.entities()).join().collect();
-                self.world.delete_all();
+                let es: Vec<Entity> = (&world.entities()).join().collect();
+                world.delete_all();
                 enc_ents(6, &es)
             }
             (14, 0) => {
-                self.world.maintain();
+                xs.log.clear();
+                world.maintain();
                 vec![7]
             }
-            (20, 1) => match self.h(p[0]) {
-                Some(e) => vec![4, self.world.entities().is_alive(e) as i64],
+            (60, 4) => match hget(xs, p[1]) {
+                // LazyUpdate::insert
+                Some(e) => {
+                    fn li<T: Tokish>(world: &World, e: Entity, u: u64, v: i64) {
+                        world.read_resource::<LazyUpdate>().insert(e, T::mk(u, v));
+                    }
+                    by_sid!(p[0], li, &*world, e, p[2] as u64, p[3]);
+                    vec![7]
+                }
                 None => vec![8],
             },
-            (21, 1) => match self.h(p[0]) {
-                Some(e) => vec![4, self.world.is_alive(e) as i64],
+            (61, n) if n >= 1 => {
+                // LazyUpdate::insert_all
+                let trip: Vec<(i64, u64, i64)> = p[1..].chunks(3).filter(|c| c.len() == 3).map(|c| (c[0], c[1] as u64, c[2])).collect();
+                let es: Option<Vec<(Entity, u64, i64)>> =
+                    trip.iter().map(|&(h, u, v)| hget(xs, h).map(|e| (e, u, v))).collect();
+                match es {
+                    Some(es) => {
+                        fn lia<T: Tokish>(world: &World, es: Vec<(Entity, u64, i64)>) {
+                            let items: Vec<(Entity, T)> = es.into_iter().map(|(e, u, v)| (e, T::mk(u, v))).collect();
+                            world.read_resource::<LazyUpdate>().insert_all(items);
+                        }
+                        by_sid!(p[0], lia, &*world, es);
+                        vec![7]
+                    }
+                    None => vec![8],
+                }
+            }
+            (62, 2) => match hget(xs, p[1]) {
+                // LazyUpdate::remove
+                Some(e) => {
+                    fn lr<T: Tokish>(world: &World, e: Entity) {
+                        world.read_resource::<LazyUpdate>().remove::<T>(e);
+                    }
+                    by_sid!(p[0], lr, &*world, e);
+                    vec![7]
+                }
+                None => vec![8],
+            },
+            (63, _) => {
+                // LazyUpdate::exec / exec_mut with a closure that runs the nested operations
+                let prog = parse_ops(p);
+                let sp = StPtr(xs as *mut St);
+                let lazy = world.read_resource::<LazyUpdate>();
+                if prog.len() % 2 == 0 {
+                    lazy.exec(move |w| run_prog(w, &sp, &prog));
+                } else {
+                    lazy.exec_mut(move |w| run_prog(w, &sp, &prog));
+                }
+                vec![7]
+            }
+            (20, 1) => match hget(xs, p[0]) {
+                Some(e) => vec![4, world.entities().is_alive(e) as i64],
+                None => vec![8],
+            },
+            (21, 1) => match hget(xs, p[0]) {
+                Some(e) => vec![4, world.is_alive(e) as i64],
                 None => vec![8],
             },
             (22, 0) => {
-                let es: Vec<Entity> = (&self.world.entities()).join().collect();
+                let es: Vec<Entity> = (&world.entities()).join().collect();
                 enc_ents(6, &es)
             }
-            (23, 1) => match self.h(p[0]) {
+            (23, 1) => match hget(xs, p[0]) {
                 Some(e) => {
-                    let ents: specs::shred::Fetch<EntitiesRes> = self.world.fetch();
+                    let ents: specs::shred::Fetch<EntitiesRes> = world.fetch();
                     enc_ents(1, &[ents.entity(e.id())])
                 }
                 None => vec![8],
             },
             (24, 0) => {
-                let ents = self.world.entities();
-                let mut o = vec![5, self.hs.len() as i64];
-                for e in &self.hs {
+                let ents = world.entities();
+                let mut o = vec![5, xs.hs.len() as i64];
+                for e in &xs.hs {
                     o.push(ents.is_alive(*e) as i64);
                 }
                 o
             }
-            (38, 1) => slice_op(self, p[0]),
-            (50, 1) => {
-                // the registration path is chosen by the storage id so that all four are exercised
+            (38, 1) => slice_op(world, p[0]),
+            (50, 1) | (50, 2) => {
+                // the registration path: given explicitly, else chosen by the storage id so that all are exercised
                 let sid = p[0];
-                match sid % 4 {
-                    0 => by_sid!(sid, reg, self),
-                    1 => by_sid!(sid, reg_with, self),
-                    2 => by_sid!(sid, reg_setup_read, self),
-                    _ => by_sid!(sid, reg_setup_write, self),
+                let path = if p.len() == 2 { p[1] } else { sid % 4 };
+                match path {
+                    0 => by_sid!(sid, reg, world),
+                    1 => by_sid!(sid, reg_with, world),
+                    2 => by_sid!(sid, reg_setup_read, world),
+                    3 => by_sid!(sid, reg_setup_write, world),
+                    4 => by_sid!(sid, reg_raw_then_setup, world, false),
+                    _ => by_sid!(sid, reg_raw_then_setup, world, true),
                 }
                 vec![7]
             }
@@ -509,22 +624,22 @@ impl Exec {
                 let sid = p[0];
                 if !is_tracked_sid(sid) {
                     // the storage must exist (fetch panics otherwise), but it has no channel
-                    fn touch<T: Tokish>(ex: &mut Exec) {
-                        let _ = ex.world.read_storage::<T>();
+                    fn touch<T: Tokish>(world: &mut World) {
+                        let _ = world.read_storage::<T>();
                     }
-                    by_sid!(sid, touch, self);
+                    by_sid!(sid, touch, world);
                     return vec![8];
                 }
-                by_tracked_sid!(sid, tracked_op, self, sid, code, p)
+                by_tracked_sid!(sid, tracked_op, world, xs, sid, code, p)
             }
             (30, 4) | (31, 2) | (32, 5) | (33, 2) | (34, 2) | (35, 1) | (36, 1) | (37, 1) | (39, 1) | (40, 1) | (40, 2)
             | (41, 5) | (42, 2) => {
                 let sid = p[0];
-                by_sid!(sid, st_op, self, code, p)
+                by_sid!(sid, st_op, world, xs, code, p)
             }
             (99, 0) => {
-                self.readers.clear();
-                let old = std::mem::replace(&mut self.world, World::new());
+                xs.readers.clear();
+                let old = std::mem::replace(world, World::new());
                 drop(old);
                 vec![7]
             }
@@ -534,7 +649,11 @@ impl Exec {
 }
 
 fn effects_entry(code: i64, p: &[i64]) -> Out {
-    let (m, mut d) = take_effects();
+    let (m, d) = take_effects();
+    fmt_effects(code, p, m, d)
+}
+
+fn fmt_effects(code: i64, p: &[i64], m: u64, mut d: Vec<u64>) -> Out {
     // canonical order where the real order is unspecified (hash map iteration, resource drop order)
     if code == 99 || (code == 39 && p.len() == 1 && is_hash_sid(p[0])) {
         d.sort();
@@ -567,7 +686,24 @@ pub fn run_history(ints: &[i64]) -> Vec<Out> {
         match r {
             Ok(o) => {
                 tr.push(o);
-                tr.push(effects_entry(code, p));
+                if code == 14 {
+                    // the operations run by lazy closures during this maintain follow, each with its effects;
+                    // effects seen at the start of a nested operation belong to the entry before it
+                    let log = std::mem::take(&mut ex.st.log);
+                    let mut prev: (i64, Vec<i64>) = (14, Vec::new());
+                    for item in log {
+                        match item {
+                            LogItem::Eff(m, d) => tr.push(fmt_effects(prev.0, &prev.1, m, d)),
+                            LogItem::Op(c, pp, out) => {
+                                tr.push(out);
+                                prev = (c, pp);
+                            }
+                        }
+                    }
+                    tr.push(effects_entry(prev.0, &prev.1));
+                } else {
+                    tr.push(effects_entry(code, p));
+                }
             }
             Err(_) => {
                 tr.push(vec![9]);
